@@ -409,6 +409,59 @@ let run_pc c =
   | "marlin" when has c "beta" -> run_pc_marlin c
   | _ -> ()
 
+(* ---------------- C13: calculate_t, indices, Reed-Solomon ---------------- *)
+let field_of = function
+  | "bls381" -> (Z.of_string "52435875175126190479447740508185965837690552500527637822603658699938581184513", 255)
+  | "ed" -> (Z.of_string "6554484396890773809930967563523245729705921265872317281365359162392183254199", 252)
+  | "bn254" -> (Z.of_string "21888242871839275222246405745257275088548364400416034343698204186575808495617", 254)
+  | f -> failwith ("unknown field " ^ f)
+let calc_fuel = 40000
+let run_c13 c =
+  match str1 c "sub" with
+  | "calct" ->
+    let (q, bits) = field_of (str1 c "field") in
+    let zn k = Z.of_string (str1 c k) in
+    let lam = zn "lam" and d0 = zn "d0" and d1 = zn "d1" and n = zn "n" in
+    let show fsize = match CalcT.calc_t lam d0 d1 n fsize (nat_of_int calc_fuel) with
+      | None -> "MODEL_FUEL_EXHAUSTED"
+      | Some (Result.Ok t) -> Z.to_string t
+      | Some _ -> "err" in
+    (* the property's bound divides by |F|; the code's closed form by 2^bits: both are reported, the
+       comparator accepts either (they differ only in a thin band next to infeasibility) *)
+    obs "t" "N" [ show q; show (Z.shift_left Z.one bits) ]
+  | "indices" ->
+    let n = Z.of_string (str1 c "n") in
+    obs1 "nbytes" "N" (Z.to_string (CalcT.get_num_bytes n));
+    let sq = List.map (fun (_, b) -> List.map Z.of_string b) (indexed c "sq") in
+    obs1 "nsqueezes" "N" (str1 c "t");
+    obs1 "reabsorbed" "S" "yes";
+    (match CalcT.indices_of n sq with
+     | Result.Ok l -> obs1 "indices_res" "S" "ok"; obs "indices" "N" (dash (List.map Z.to_string l))
+     | r -> obs1 "indices_res" "S" (class_of r))
+  | "proofshape" when has c "n_ext" ->
+    let (q, bits) = field_of "bls381" in
+    let zn k = Z.of_string (str1 c k) in
+    let lam = zn "lam" and d0 = zn "d0" and d1 = zn "d1" and n = zn "n_ext" in
+    let show fsize = match CalcT.calc_t lam d0 d1 n fsize (nat_of_int calc_fuel) with
+      | None -> "MODEL_FUEL_EXHAUSTED" | Some (Result.Ok t) -> Z.to_string t | Some _ -> "err" in
+    let ts = [ show q; show (Z.shift_left Z.one bits) ] in
+    (* an honest proof authenticates exactly t columns, at the positions derived from the transcript *)
+    obs "npaths" "N" ts; obs "ncols" "N" ts;
+    let sq = List.map (fun (_, b) -> List.map Z.of_string b) (indexed c "sq") in
+    (match CalcT.indices_of n sq with
+     | Result.Ok l -> obs "leaf_idx" "N" (dash (List.map Z.to_string l))
+     | _ -> obs1 "leaf_idx" "N" "model-refused");
+    obs1 "nproofs" "N" "1";
+    obs1 "check" "S" "accept"
+  | "rs" ->
+    let fo = fo () in
+    let msg = fs_of c "x" in
+    let omega = f_of_str (str1 c "omega") and m_ext = int1 c "m_ext" in
+    let e = CalcT.rs_encode fo omega (nat_of_int m_ext) msg in
+    obs1 "enc_len" "N" (string_of_int (List.length e));
+    obs "enc" "F" (fs_to e)
+  | _ -> ()
+
 let () =
   let file = Sys.argv.(1) in
   let ic = open_in file in
@@ -423,6 +476,7 @@ let () =
           | "kzg10" -> run_kzg10 c
           | "c16" -> run_c16 c
           | "pc" -> run_pc c
+          | "c13" -> run_c13 c
           | _ -> () (* not modelled: the library run is judged by the implementation-level oracle only *))
        with e -> obs1 "runner_exception" "S" (String.map (fun ch -> if ch = ' ' then '_' else ch) (Printexc.to_string e)));
       print_string ("case " ^ c.id ^ "\n");
